@@ -28,8 +28,10 @@ type Rec struct {
 	// length of a message (C03's documented exemption for messages without
 	// Content-Length whose body is "the rest of the buffer").
 	MaskBody bool
-	MaxEnd   int // largest Offs+Len of any non-empty field recorded
-	pfx      string
+	// MaskBuf leaves out the extent of msg.Buf (two executions that see different buffers).
+	MaskBuf bool
+	MaxEnd  int // largest Offs+Len of any non-empty field recorded
+	pfx     string
 }
 
 func (r *Rec) Reset(base, buflen int) {
